@@ -50,7 +50,7 @@ def block(s, rng):
     for pH in grid(rng):
         t = "%d/%d" % (pH.numerator, pH.denominator)
         for gname in ("ncpr", "fcr", "fer", "mnc"):
-            lines.append("q phq %s %s %s" % (s, gname, t))
+            lines.append("q phq %s %s %s%s" % (s, gname, t, " @totnorm" if gname == "fcr" and rng.random() < 0.25 else ""))
             meta.append((gname, pH))
     # integer pH values passed as Python ints (not floats)
     for k in rng.sample(range(0, 15), 5):
